@@ -1,7 +1,7 @@
 (* Property C08 - only statements, each closed by [exact]. *)
 From Coq Require Import NArith List Bool Sorting.Sorted Permutation.
 Import ListNotations.
-Require Import UV.C08.Model UV.C08.Proofs UV.C08.Figures UV.C08.Open UV.C08.Order UV.C08.Checker UV.C08.OpenSpec UV.C08.SortChecker UV.C08.Merge UV.C08.Lost UV.C08.LostSpec.
+Require Import UV.C08.Model UV.C08.Proofs UV.C08.Figures UV.C08.Open UV.C08.Order UV.C08.Checker UV.C08.OpenSpec UV.C08.SortChecker UV.C08.Merge UV.C08.Lost UV.C08.LostSpec UV.C08.Inherit.
 Local Open Scope N_scope.
 
 (* The accumulation automaton of fstack_account_time + report_update_node (uint64 arithmetic, clamp
@@ -174,6 +174,33 @@ Theorem C08_checker_accepts_model_lost : forall max_stack nms tts rss,
   /\ ok_table nms tts (report (mkcase max_stack nms rss)) = true.
 Proof. exact checker_accepts_model_lost. Qed.
 Print Assumptions C08_checker_accepts_model_lost.
+
+(* Data that starts at depth k > 0 (a forked child; a thread whose first buffers were not recorded), no LOST
+   markers: the counted rows are exactly those of the same data preceded by k ENTRY records of unknown address
+   (0) at the time of the first record - the frames open when recording began are calls entered then. *)
+Theorem C08_inherited_start : forall max_stack r0 rest k,
+  Forall (fun r => is_lost r = false) (r0 :: rest) ->
+  N.of_nat k = r_depth r0 + (if is_exit r0 then 1 else 0) -> (k <= N.to_nat max_stack)%nat ->
+  task_rows max_stack (r0 :: rest) = task_rows max_stack (zeros k (r_time r0) ++ r0 :: rest).
+Proof. exact inherited_start. Qed.
+Print Assumptions C08_inherited_start.
+
+(* ... hence the rows are the specification's rows of the task in which those frames are calls with entry
+   address 0 (never recursive, named by their EXIT record, <0> when they never exit), *)
+Theorem C08_inherited_task : forall max_stack tt rs, good_task max_stack tt -> inherits max_stack tt rs ->
+  task_rows max_stack rs = task_rows max_stack (trace_recs tt)
+  /\ Permutation (task_rows max_stack rs) (spec_task tt).
+Proof. exact inherited_task_rows. Qed.
+Print Assumptions C08_inherited_task.
+
+(* ... and the run-time checker accepts the model's report of any set of such tasks (parent and children). *)
+Theorem C08_checker_accepts_model_inherited : forall max_stack nms tts rss,
+  Forall (good_task max_stack) tts -> Forall2 (inherits max_stack) tts rss ->
+  sumN (map w_total (concat (map spec_task tts))) < M64 ->
+  report (mkcase max_stack nms rss) = report (mkcase max_stack nms (map trace_recs tts))
+  /\ ok_table nms tts (report (mkcase max_stack nms rss)) = true.
+Proof. exact checker_accepts_model_inherited. Qed.
+Print Assumptions C08_checker_accepts_model_inherited.
 
 (* ------------------------------------------------------------------------------------------------
    The code before the five fixes (legacy variants of the model), each next to the behaviour now.  *)
